@@ -1733,3 +1733,7 @@ pub fn get_var_type<T>(_: &T) -> String {
     let type_name = std::any::type_name::<T>();
     String::from(type_name)
 }
+
+#[cfg(kani)]
+#[path = "/verif/kani/bo_proofs.rs"]
+mod verif_kani;
